@@ -5,7 +5,7 @@ Runtime monitor over complete FORD runs in a forked child:
     in a run = a silently overwritten page / copied source;
   * icontract post-condition on NameSelector.get_name: (directory, stem.lower()) -> item is injective;
   * after the run: distinct page-owning entities have distinct URLs, the page at an entity's URL carries that
-    entity's name and tracer word, entity anchors are unique per page, src/<name> equals the defining file.
+    entity's name and tracer word, entity anchors are unique per page, the source-file link of a page serves the defining file.
 Workload: projects that reuse names across modules/files/directories, in different letter case, operator and
 assignment interfaces, several unnamed programs / block data, equal base names in different source dirs.
 """
@@ -106,16 +106,26 @@ def build(seed):
             L += ["contains"] + contains
         L.append(f"end module {mod}")
         d = rng.choice(dirs)
-        base = rng.choice(["util", "util", f"file{mi}"])
+        base = rng.choice(["util", "util", "Util", f"file{mi}"])
         rel = os.path.join(d, base + ".f90")
         k = 0
         while rel in files:
             k += 1
             d = dirs[(dirs.index(d) + 1) % len(dirs)]
             rel = os.path.join(d, base + (".f90" if k < 3 else f"{k}.f90"))
-        if base == "util" and any(os.path.basename(r) == "util.f90" for r in files):
+        if any(os.path.basename(r) == os.path.basename(rel) for r in files):
             tags.add("equal_file_basenames")
+        elif any(os.path.basename(r).lower() == os.path.basename(rel).lower() for r in files):
+            tags.add("file_basenames_differ_only_in_case")
         files[rel] = "\n".join(L) + "\n"
+    # a generic interface extended, under the same name, in a module that uses the first one
+    if rng.random() < 0.5:
+        tags.add("generic_extended_in_using_module")
+        ga, gb = f"ga{sx}", f"gb{sx}"
+        files[f"gen_a{sx}.f90"] = "\n".join([f"module {ga}", doc(), "implicit none", "interface norm", doc(), "module procedure norm_a", "end interface", "contains",
+                                             "function norm_a(x) result(r)", doc(), "integer, intent(in) :: x", "integer :: r", "r = x", "end function norm_a", f"end module {ga}"]) + "\n"
+        files[f"gen_b{sx}.f90"] = "\n".join([f"module {gb}", doc(), f"use {ga}", "implicit none", "interface norm", doc(), "module procedure norm_b", "end interface", "contains",
+                                             "function norm_b(x) result(r)", doc(), "real, intent(in) :: x", "real :: r", "r = x", "end function norm_b", f"end module {gb}"]) + "\n"
     # submodule named like a module
     if rng.random() < 0.4:
         tags.add("submodule_named_like_module")
@@ -225,7 +235,8 @@ def run_case(item):
                 seen.add(id(e))
                 words = re.findall(r"zq\d+d\d+", " ".join(getattr(e, "doc_list", []) or []))
                 ents.append({"kind": kind, "name": e.name, "url": e.get_url(), "words": words, "path": getattr(e, "path", None) and str(e.path),
-                             "defined_in": e.filename if hasattr(e, "hierarchy") else None})
+                             "defined_in": e.filename if hasattr(e, "hierarchy") else None,
+                             "src_path": str(getattr(getattr(e, "source_file", None), "path", "") or (e.path if kind == "file" else "")) or None})
         res["n_pages_objs"] = len(captured["docs"].docs)
     res["entities"] = ents
     return res
@@ -295,14 +306,28 @@ def case(seed):
                              "w": {"seed": seed, "page": rel, "anchor": d, "tags": tags, "files": files}})
         # 5 copied sources
         if opts["incl_src"]:
+            # 5b the "Source File" link on an entity's page serves the file that defines the entity
+            import posixpath
+            import urllib.parse
+
             for e in r["entities"]:
-                if e["kind"] != "file":
+                if e["url"] is None or "#" in e["url"] or not e.get("src_path") or not os.path.isfile(e["src_path"]):
                     continue
-                cp = os.path.join(out, "src", e["name"])
-                same = os.path.exists(cp) and open(cp, "rb").read() == open(e["path"], "rb").read()
-                if not same:
-                    viol.append({"kf": {"kind": "copied_source_differs", "equal_basenames": sum(1 for x in r["entities"] if x["kind"] == "file" and x["name"] == e["name"]) > 1},
-                                 "w": {"seed": seed, "file": e, "tags": tags}})
+                page = s["pages"].get(e["url"])
+                if page is None:
+                    continue
+                for tag, attr, url in page["links"]:
+                    tgt = posixpath.normpath(posixpath.join(posixpath.dirname(e["url"]), urllib.parse.unquote(url.split("#")[0])))
+                    if not tgt.startswith("src/"):
+                        continue
+                    fp = os.path.join(out, tgt)
+                    if not os.path.isfile(fp) or open(fp, "rb").read() != open(e["src_path"], "rb").read():
+                        bn = os.path.basename(e["src_path"])
+                        others = [os.path.basename(x) for x in files if os.path.join(src, x) != e["src_path"]]
+                        viol.append({"kf": {"kind": "source_link_serves_other_file", "equal_basenames": bn in others,
+                                            "names_differ_only_in_case": bn not in others and bn.lower() in [o.lower() for o in others]},
+                                     "w": {"seed": seed, "entity": e, "link": url, "tags": tags}})
+                        break
         return {"viol": viol, "tags": tags, "nent": len(r["entities"]), "mon": {"get_name_evals": r["mon"]["get_name_evals"], "n_writes": r["n_writes"]},
                 "nontrivial": len(tags) >= 2, "hash": core.h(files), "sample": {"seed": seed, "scenario_tags": tags, "files": sorted(files), "entities": len(r["entities"])}}
     finally:
